@@ -519,6 +519,62 @@ func ruleTimerRearm(c *Ctx, r *Reporter) {
 	if rt := c.fnByName("reconciler.(retries).resetTimer"); rt != nil {
 		af := callsIn(c, rt, "time.AfterFunc")
 		rs := callsIn(c, rt, "time.(Timer).Reset")
+		// once the queue is known to be non-empty, every way out of resetTimer arms the timer:
+		// Stop() has disarmed a live timer, so "it is already set early enough" is not an option
+		armed := true
+		var leak ssa.Instruction
+		isArm := func(in ssa.Instruction) bool {
+			if call, ok := in.(*ssa.Call); ok {
+				n := c.calleeName(call)
+				return n == "time.AfterFunc" || n == "time.(Timer).Reset"
+			}
+			return false
+		}
+		nIf := 0
+		for _, ia := range allInstrs(rt) {
+			iff, ok := ia.In.(*ssa.If)
+			if !ok {
+				continue
+			}
+			bo, ok := iff.Cond.(*ssa.BinOp)
+			if !ok {
+				continue
+			}
+			call, ok := bo.X.(*ssa.Call)
+			if !ok || c.calleeName(call) != "reconciler.(retryPrioQueue).Len" {
+				continue
+			}
+			k, ok := constInt(bo.Y)
+			if !ok || k != 0 {
+				continue
+			}
+			var succ *ssa.BasicBlock
+			switch bo.Op {
+			case token.GTR, token.NEQ:
+				succ = iff.Block().Succs[0]
+			case token.EQL, token.LEQ:
+				succ = iff.Block().Succs[1]
+			default:
+				continue
+			}
+			nIf++
+			if len(succ.Instrs) == 0 {
+				continue
+			}
+			first := succ.Instrs[0]
+			if isArm(first) {
+				continue
+			}
+			if ret := reachesReturnAvoiding(first, isArm, nil); ret != nil {
+				armed = false
+				leak = ret
+			}
+		}
+		lp := c.posStr(rt.Pos())
+		if leak != nil {
+			lp = c.posStr(instrPos(leak))
+		}
+		r.check(armed && nIf >= 1, "reconciler.(retries).resetTimer|a non-empty queue always leaves an armed timer", lp, "every path on which the queue is non-empty creates or resets the timer", "resetTimer can return with a non-empty queue and no armed timer (the live timer was stopped at the top and is only re-armed under an extra condition): after the head of the queue is cleared the remaining retries are never woken")
 		r.check(len(af) == 1 && len(rs) == 1, "reconciler.(retries).resetTimer|arms", c.posStr(rt.Pos()), "a new timer is created when none is live and the live one is Reset otherwise", "resetTimer no longer arms/reset the timer on both branches")
 	} else {
 		r.anchorMissing("reconciler.(retries).resetTimer")
@@ -971,6 +1027,13 @@ func ruleReconcilerWrites(c *Ctx, r *Reporter) {
 				if call, ok := st.Val.(*ssa.Call); ok {
 					if sf := staticCallee(call); sf != nil && sf.Name() == "nextID" {
 						idFresh = true
+						// every result carries the fresh id: no return before it is drawn (a set
+						// without named statuses reports `Pending` with the set's id for every reconciler)
+						for _, ret := range returnsOf(pf) {
+							if !instrDominates(st, ret) {
+								idFresh = false
+							}
+						}
 					}
 				}
 			}
